@@ -10,7 +10,8 @@
    2. `sched`: given every thread's action list and a preferred global order (the recorder's stamps, made consistent
       with the exact dq_state / dq_items_tail chains), execute the actions on SLane.gstep / SLane.begin: at each point
       the first thread (in the preferred order, within a window) whose next action is ENABLED in the model and produces
-      the RECORDED outcome is taken.  The run is reproduced iff every action is consumed.  The scheduler never invents
+      the RECORDED outcome is taken (item identity by address: the address exchanged into
+      the tail when the model issued an id must be the address the recorded pop / callout names).  The run is reproduced iff every action is consumed.  The scheduler never invents
       a model step and never skips one.
 
    The need_override continuation of a push onto a non-empty list (queue.c:5077-5088) is SLane.ostep followed by the
@@ -49,6 +50,8 @@ Definition lock_restarts (c : cfg) (floor old : Z) : bool :=
   match f_dispatch_queue_drain_try_lock 0 0 1 (c_self c) floor old 0 with Restart _ => true | _ => false end.
 Definition unlock_refused (o old : Z) : bool :=
   match f_dispatch_queue_drain_try_unlock 0 o 1 old with NoCommit _ _ => true | _ => false end.
+Definition wake_gives_up (q fl old : Z) : bool :=
+  match wakeup_loop 0 q fl 1 old ENQUEUED with NoCommit _ _ => true | _ => false end.
 Definition nzb (x : Z) : bool := negb (x =? 0).
 
 (* the SLane actions completed by the transition p --e--> p' of the observation automaton; next_ret: the event that follows
@@ -65,7 +68,10 @@ Definition mabs (c : cfg) (p : tpc) (e : event) (p' : tpc) (next_ret : bool) : l
   | TA_linked _, TA_wake_load _ _ => [mstep SH_OWAKE (-1) 0]
   | TA_wake_body _ _ _, TA_push_tq => [mstep SH_ROOTPUSH (eb e) 0]
   | TA_wake_body _ _ _, TA_ret => [mstep SH_IDLE (eb e) 0]
-  | TA_wake_body _ _ _, TIdle => [mstep SH_IDLE (-1) 0]              (* the loop gave up (PA_owake, nothing to change) *)
+  (* the loop gives up (PA_owake, nothing to change): the step is taken where the value that decided it was read (the initial
+     load or a failed compare-exchange), not at the return mark, by which time the word may have changed *)
+  | TA_wake_load _ _, TA_wake_body q fl v | TA_wake_body _ _ _, TA_wake_body q fl v =>
+      if wake_gives_up q fl v then [mstep SH_IDLE (-1) 0] else []
   | TA_push_xchg, TA_push_link _ => [mstep SH_IDLE (-1) 0]
   | TIdle, TW_lock_body f v =>
       MA 1 (c_floor c) SH_LOCK (-1) 0 0 :: (if lock_restarts c f v then [mstep SH_LOCK (-1) 0] else [])
@@ -114,13 +120,23 @@ Definition abstract (c : cfg) (tr : list event) : list Z := concat (map enc_mact
 (* a scheduled action: the thread, the action, the id SLane must give / have given to the item (or -1) *)
 Record sact := { s_tid : Z; s_act : mact; s_id : Z }.
 
+(* item identity is checked BY ADDRESS: the scheduler remembers which address each model id was given at its tail exchange
+   (ids), and a pop / callout must concern the address the recording names.  (s_id, when not -1, additionally pins the model
+   id; the checker leaves it at -1: an id computed outside the model would depend on the recorder's stamps.) *)
 Definition id_ok (p : pc) (id : Z) : bool :=
   (id =? -1) || match p with PA_link i _ _ | PW_run _ i _ | PW_incall _ i _ => i =? id | _ => true end.
+Fixpoint id_item (i : Z) (ids : list (Z * Z)) : Z :=
+  match ids with [] => 0 | (j, a) :: r => if j =? i then a else id_item i r end.
+Definition item_ok (ids : list (Z * Z)) (p : pc) (item : Z) : bool :=
+  match p with PW_run _ i _ | PW_incall _ i _ => (item =? 0) || (id_item i ids =? item) | _ => true end.
+Definition note_item (ids : list (Z * Z)) (p : pc) (item : Z) : list (Z * Z) :=
+  match p with PA_link i _ _ => (i, item) :: ids | _ => ids end.
 
-Definition try_act (s : gst) (a : sact) : option gst :=
+Definition try_act (ids : list (Z * Z)) (s : gst) (a : sact) : option gst :=
   let t := s_tid a in let m := s_act a in
   let chk (s' : gst) :=
-    if (shape (pcs s' t) =? m_sh m) && ((m_st m =? -1) || (st s' =? m_st m)) && id_ok (pcs s' t) (s_id a) then Some s' else None in
+    if (shape (pcs s' t) =? m_sh m) && ((m_st m =? -1) || (st s' =? m_st m)) && id_ok (pcs s' t) (s_id a) &&
+       item_ok ids (pcs s' t) (m_item m) then Some s' else None in
   if m_kind m =? 0 then match begin s t (CAsync (m_arg m)) with Some s' => chk s' | None => None end
   else if m_kind m =? 1 then match begin s t (CWorker (m_arg m)) with Some s' => chk s' | None => None end
   else if m_kind m =? 2 then match gstep s t with Some s' => chk s' | None => None end
@@ -135,28 +151,33 @@ Fixpoint remove_first (t : Z) (l : list Z) : list Z :=
   match l with [] => [] | x :: r => if x =? t then r else x :: remove_first t r end.
 
 (* among the first w entries of the preferred order: the first thread whose next action is enabled with the recorded outcome *)
-Fixpoint pick (s : gst) (qs : list (Z * list sact)) (ord : list Z) (seen : list Z) (w : nat) : option (Z * gst) :=
+Fixpoint pick (ids : list (Z * Z)) (s : gst) (qs : list (Z * list sact)) (ord : list Z) (seen : list Z) (w : nat) : option (Z * gst) :=
   match w, ord with
   | O, _ | _, [] => None
   | S w', t :: r =>
-      if existsb (Z.eqb t) seen then pick s qs r seen w'
+      if existsb (Z.eqb t) seen then pick ids s qs r seen w'
       else match lookup t qs with
-           | a :: _ => match try_act s a with
+           | a :: _ => match try_act ids s a with
                        | Some s' => Some (t, s')
-                       | None => pick s qs r (t :: seen) w'
+                       | None => pick ids s qs r (t :: seen) w'
                        end
-           | [] => pick s qs r (t :: seen) w'
+           | [] => pick ids s qs r (t :: seen) w'
            end
   end.
 
-Fixpoint sched (fuel : nat) (w : nat) (s : gst) (qs : list (Z * list sact)) (ord : list Z) (done : Z) : gst * Z * list Z :=
+Definition next_item (t : Z) (qs : list (Z * list sact)) : Z :=
+  match lookup t qs with a :: _ => m_item (s_act a) | [] => 0 end.
+
+Fixpoint sched (fuel : nat) (w : nat) (ids : list (Z * Z)) (s : gst) (qs : list (Z * list sact)) (ord : list Z) (done : Z)
+  : gst * Z * list Z :=
   match fuel with
   | O => (s, done, ord)
   | S f =>
       match ord with
       | [] => (s, done, [])
-      | _ => match pick s qs ord [] w with
-             | Some (t, s') => sched f w s' (pop_q t qs) (remove_first t ord) (done + 1)
+      | _ => match pick ids s qs ord [] w with
+             | Some (t, s') =>
+                 sched f w (note_item ids (pcs s' t) (next_item t qs)) s' (pop_q t qs) (remove_first t ord) (done + 1)
              | None => (s, done, ord)
              end
       end
@@ -167,7 +188,7 @@ Definition all_idle (s : gst) (tids : list Z) : bool := forallb (fun t => match 
 (* result: [actions executed; actions left; dq_state; rootq; length lst; nextid; all threads idle; length started;
             started is nextid-1 .. 0 (FIFO, each once); next stuck thread or -1] *)
 Definition replay (rb : Z) (w : nat) (qs : list (Z * list sact)) (ord : list Z) : list Z :=
-  let '(s, done, rest) := sched (S (length ord)) w (init_state rb) qs ord 0 in
+  let '(s, done, rest) := sched (S (length ord)) w [] (init_state rb) qs ord 0 in
   let n := nextid s in
   [done; Z.of_nat (length rest); st s; rootq s; Z.of_nat (length (lst s)); n; b2z (all_idle s (map fst qs));
    Z.of_nat (length (started s));
